@@ -44,8 +44,8 @@ M = [
  ("translate_copy_removed", "pyins/transform.py", "    result = trajectory.copy()\n    result[LLA_COLS] = perturb_lla(", "    result = trajectory\n    result[LLA_COLS] = perturb_lla(", ["C19"], "violation"),
  ("sim_rng_bypassed", "pyins/sim.py", "    rng = check_random_state(rng)\n    result = pd.Series(index=TRAJECTORY_ERROR_COLS)", "    rng = np.random\n    result = pd.Series(index=TRAJECTORY_ERROR_COLS)", ["C19"], "violation"),
  ("increments_column_renamed", "pyins/strapdown.py", "columns=['dt', 'theta_x', 'theta_y', 'theta_z',\n                                 'dv_x', 'dv_y', 'dv_z']", "columns=['dt', 'theta_x', 'theta_y', 'theta_z',\n                                 'dv_x', 'dv_y', 'dvz']", ["C19"], "violation"),
- ("ff_innov_stamped_with_epoch", "pyins/filters.py", "                    innovations_times[name].append(time)\n\n        times_result.append(time)\n        x_result.append(x)",
-  "                    innovations_times[name].append(measurement_time)\n\n        times_result.append(time)\n        x_result.append(x)", ["C10"], "quiet-or-drift"),   # C10 does not say which stamp a feedforward innovation row carries
+ ("ff_innov_stamped_with_epoch", "pyins/filters.py", "                    innovations_times[name].append(time)\n\n            measurement_time_index += 1",
+  "                    innovations_times[name].append(measurement_time)\n\n            measurement_time_index += 1", ["C10"], "quiet-or-drift"),   # C10 does not say which stamp a feedforward innovation row carries
  ("nedvel_2d_slice_removed", "pyins/measurements.py", "        H = error_model.ned_velocity_error_jacobian(pva)\n        R = self.R\n        if not error_model.with_altitude:\n            z = z[:2]",
   "        H = error_model.ned_velocity_error_jacobian(pva)\n        R = self.R\n        if not error_model.with_altitude:\n            z = z[:3]", ["C13"], "violation"),
  ("resample_clip_strict", "pyins/transform.py", "    times = times[(times >= state.index[0]) & (times <= state.index[-1])]", "    times = times[(times > state.index[0]) & (times <= state.index[-1])]", ["C18"], "violation"),
